@@ -77,6 +77,13 @@ type c13Plan struct {
 	NLogical    int  `json:"nlogical,omitempty"`
 	Sends       int  `json:"sends,omitempty"`
 	ConsumeSome int  `json:"consume_some,omitempty"`
+	// AckTeardown: the server answers the teardown of a logical channel with a header-only acknowledgement (it
+	// arrives while Close runs or after it: behind a response nobody received, or for a channel that is gone).
+	AckTeardown bool `json:"ack_teardown,omitempty"`
+	// Stray (close-errqueue): before the packets that cannot be parsed, that many packets for a channel that does not
+	// exist arrive - about as many connection errors as the connection holds, and nobody receives them - and then, on
+	// the channel itself, an environment change announcing a packet size that cannot be used.
+	Stray int `json:"stray,omitempty"`
 }
 
 type c13 struct{}
@@ -163,6 +170,11 @@ func (c13) Gen(r *Rand, idx int, tier string) interface{} {
 		// a slow server: it pauses now and then (up to 200 ms) and reads on; senders and Close wait for it
 		p.Knobs.GenSlow(r, 1200, 200*time.Millisecond)
 	}
+	// (drawn last: the rest of the plan is what it was)
+	p.AckTeardown = p.Logical && r.Pct(50)
+	if p.Kind == "close-errqueue" && r.Pct(50) {
+		p.Stray = 8 + r.Intn(5)
+	}
 	return p
 }
 func (c13) Decode(raw json.RawMessage) (interface{}, error) {
@@ -219,6 +231,12 @@ func (c13) Shrink(plan interface{}) []interface{} {
 	}
 	if p.CauseCtx {
 		mod(func(q *c13Plan) { q.CauseCtx = false })
+	}
+	if p.AckTeardown {
+		mod(func(q *c13Plan) { q.AckTeardown = false })
+	}
+	if p.Stray > 0 {
+		mod(func(q *c13Plan) { q.Stray = 0 })
 	}
 	return out
 }
@@ -288,6 +306,7 @@ func (c13) Run(plan interface{}, schedSeed uint64, replay []simrt.Choice, lenien
 	pr.Async = p.Async
 	logoutSeen := 0
 	setups := 0
+	setupAcked := map[uint16]bool{} // (a teardown is only acknowledged for a channel whose setup was)
 	pr.OnHeaderOnly = func(pk peer.RecvPacket) {
 		if pk.H.Type == peer.BufSetup {
 			setups++
@@ -295,10 +314,20 @@ func (c13) Run(plan interface{}, schedSeed uint64, replay []simrt.Choice, lenien
 				s.Fault("setup-never-acknowledged")
 				return
 			}
+			setupAcked[pk.H.Channel] = true
+			pr.Conn.Deliver(peer.MakePacket(peer.BufProtack, peer.BufstatEOM, pk.H.Channel, 0, nil))
+		}
+		if pk.H.Type == peer.BufClose && pk.H.Channel != 0 && p.AckTeardown && setupAcked[pk.H.Channel] {
+			s.Fault("teardown-acknowledged")
 			pr.Conn.Deliver(peer.MakePacket(peer.BufProtack, peer.BufstatEOM, pk.H.Channel, 0, nil))
 		}
 	}
+	// (the library writes the teardown as a full-size packet with an empty - zero-filled - body: it arrives as a message)
 	pr.OnMsg = func(m *ClientMsg) {
+		if m.Type == peer.BufClose && m.Channel != 0 && p.AckTeardown && len(m.Body) > 0 && setupAcked[m.Channel] {
+			s.Fault("teardown-acknowledged")
+			pr.Conn.Deliver(peer.MakePacket(peer.BufProtack, peer.BufstatEOM, m.Channel, 0, nil))
+		}
 		if m.Type == peer.BufClose || m.Type == peer.BufSetup {
 			return
 		}
@@ -328,6 +357,13 @@ func (c13) Run(plan interface{}, schedSeed uint64, replay []simrt.Choice, lenien
 			return
 		}
 		if strings.Contains(string(m.Body), "bad") {
+			if p.Stray > 0 {
+				for k := 0; k < p.Stray; k++ {
+					pr.SendPackets([][]byte{peer.MakePacket(peer.BufResponse, peer.BufstatEOM, 99, uint8(k), peer.Done(0, 0, 0))})
+				}
+				pr.SendPackets([][]byte{peer.MakePacket(peer.BufResponse, 0, m.Channel, 0, peer.EnvChange(peer.EnvMember{Type: 4, New: "0", Old: "512"}))})
+				s.Fault("stray-packets-then-unusable-packet-size")
+			}
 			// packets that cannot be parsed: a ROW without any format before it, one per packet
 			for k := 0; k < p.BadPackets; k++ {
 				pr.SendPackets([][]byte{peer.MakePacket(peer.BufResponse, 0, m.Channel, 0, []byte{0xD1, byte(k), 0, 0, 0})})
